@@ -87,7 +87,10 @@ def judge(txt, name):
         root = etree.fromstring(xml_txt.encode())
     except Exception as e:  # noqa
         return "not well-formed: %s" % e
-    cls = root.find(".//class")
+    # the class element of THIS model (called functions are classes of the flat tree too)
+    cls = next((cd.find("class") for cd in root.iter("classDefinition") if cd.get("name") == name), None)
+    if cls is None:
+        cls = root.find(".//class")
     comps = cls.findall("component")
     if [c.get("name") for c in comps] != list(fc.symbols.keys()):
         return "components %s for symbols %s" % ([c.get("name") for c in comps], list(fc.symbols.keys()))
@@ -120,6 +123,11 @@ def judge(txt, name):
 
 WHEN_MODEL = ("model W Real x(start = 1); Real y; discrete Real d; Boolean c; equation der(x) = -x; c = x < 0.5; "
               "when c then y = 0.5 * x; d = x; end when; end W;\n")
+
+
+# a called user function whose formal parameters are named like top-level variables of the model
+FUNCTION_MODEL = ("function Sat input Real x; input Real lim; output Real r; algorithm r := x * lim; end Sat; "
+                  "model FP parameter Real lim = 0.5; Real x(start = 1); discrete Real r; Real y; equation der(x) = -x; r = 2; y = Sat(x, lim); end FP;\n")
 
 
 def judge_when():
@@ -158,6 +166,13 @@ def main():
         bad = "%s: %s" % (type(e).__name__, str(e)[:120])
     if bad:
         failures.append({"class": "xml", "input": WHEN_MODEL, "observed": bad, "expected": "XML mirroring the flat model"})
+    n += 1
+    try:
+        bad = judge(FUNCTION_MODEL, "FP")
+    except BaseException as e:  # noqa
+        bad = "%s: %s" % (type(e).__name__, str(e)[:120])
+    if bad:
+        failures.append({"class": "xml", "input": FUNCTION_MODEL, "observed": bad, "expected": "XML mirroring the flat model"})
     for i in range(n_models):
         n += 1
         txt = model(rng, i)
@@ -171,7 +186,7 @@ def main():
                 break
     if payload.get("mode") == "bounded":
         print(json.dumps({"performed": True, "cases": n, "distinct_nontrivial": n, "failures": failures,
-                          "rule": "a model with a when-equation (components keep the variability of their declarations); random flat models (seed %d) with unary / n-ary operators, function calls, variables of each variability (incl. Boolean variables with literal false/true and zero-valued literals), declaration equations (Real w = expr) and literals incl. 1e-8, 2.5e-7, 1e20: the XML text of the real backend is parsed with lxml and compared with an independent flatten() of the same model" % seed,
+                          "rule": "a model with a when-equation (components keep the variability of their declarations); a model calling a function whose formal parameters are named like its own variables; random flat models (seed %d) with unary / n-ary operators, function calls, variables of each variability (incl. Boolean variables with literal false/true and zero-valued literals), declaration equations (Real w = expr) and literals incl. 1e-8, 2.5e-7, 1e20: the XML text of the real backend is parsed with lxml and compared with an independent flatten() of the same model" % seed,
                           "bound": "%d models, expression depth 3" % n}))
     else:
         f = failures[0] if failures else None
